@@ -120,24 +120,51 @@ def run(chk):
     zr = X.atom('z_re'); zi = X.atom('z_im')
     z = zr + X.I * zi
     it3 = Interp(repo)
-    for sign_i, lab in ((1, 'Im z > 0'), (-1, 'Im z < 0')):
-        def mh(node, pt=None, s=sign_i):
-            # comparisons z_i != 0 / == 0 : non-zero imaginary part on this region
-            if node.val in ('!=', '=='):
-                return 1 if node.val == '!=' else 0
-            return None
-        zi_pos = zi if sign_i > 0 else -zi
-        q0 = X.sqrt(zr * zr + zi * zi)
-        dq = X.Decider(seed=chk.seed + 3, k=3, positive=[zi_pos, zr * zr + zi * zi, q0 + zr, q0 - zr], mask_hook=mh)
-        val = it3.call(mp, fpy, [z], {'is_real': False})
-        chk.ob('R20.5', f'_sqrt_neg_python(z)^2 == z ({lab})', dq.equal(val * val, z), dq.describe(val * val, z), mp.where(fpy), method='GF(p^2) PIT')
-        # principal branch: real part is a (non-negative) square root, imaginary part carries sign(Im z)
-        re_part = X.fn('real', val); im_part = X.fn('imag', val)
-        quad = X.sqrt(zr * zr + zi * zi)
-        chk.ob('R20.5', f'_sqrt_neg_python: Re = sqrt((|z|+Re z)/2), Im = sign(Im z) sqrt((|z|-Re z)/2) ({lab})',
-               dq.equal(re_part, X.sqrt((quad + zr) / 2)) and dq.equal(im_part, sign_i * X.sqrt((quad - zr) / 2)), 'component formulas differ', mp.where(fpy), method='GF(p^2) PIT')
+    # the complete sign partition of the complex plane: Re z and Im z each negative, zero or positive (9 regions incl. both axes and the origin).
+    # On every region the masks (z_r > 0), (z_i != 0) ... are decided (zero by pinning the atom, sign by constraining the sample), so the
+    # mask-sum collapses to one closed form which must be the principal root:  Re = sqrt((|z|+Re z)/2) >= 0,  Im = sgn(Im z) sqrt((|z|-Re z)/2)
+    # with Im = +sqrt(-Re z) on the negative real axis (C99 csqrt(-x + 0i) = +i sqrt(x)).
+    names = {-1: '< 0', 0: '== 0', 1: '> 0'}
+    for sr in (-1, 0, 1):
+        for si in (-1, 0, 1):
+            lab = f'Re z {names[sr]}, Im z {names[si]}'
+            pins = {}
+            if sr == 0: pins['z_re'] = 0
+            if si == 0: pins['z_im'] = 0
+            zr_ = zr if sr else X.const(0); zi_ = zi if si else X.const(0)
+            mod2 = zr_ * zr_ + zi_ * zi_
+            q0 = X.sqrt(mod2)
+            if si == 0:
+                q0 = sr * zr_ if sr else X.const(0)             # |z| on the real axis
+            elif sr == 0:
+                q0 = si * zi_                                     # |z| on the imaginary axis
+            pos = []
+            if sr: pos.append(sr * zr)
+            if si: pos.append(si * zi)
+            if sr and si: pos += [mod2, (q0 + zr) / 2, (q0 - zr) / 2, (q0 + sr * zr) / 2]
+            if sr == 0 and si: pos += [q0 / 2]
+            dq = X.Decider(seed=chk.seed + 3 + 3 * sr + si, k=3, positive=pos, pins=pins)
+            val = it3.call(mp, fpy, [z], {'is_real': False})
+            chk.ob('R20.5', f'_sqrt_neg_python(z)^2 == z ({lab})', dq.equal(val * val, z), dq.describe(val * val, z), mp.where(fpy), key=f'R20.5|square|{sr}{si}', method='GF(p^2) PIT on a sign region')
+            re_part = X.fn('real', val); im_part = X.fn('imag', val)
+            want_re = X.sqrt((q0 + zr_) / 2) if (sr or si) else X.const(0)
+            want_im = (si if si else 1) * X.sqrt((q0 - zr_) / 2) if (sr or si) else X.const(0)
+            if si == 0 and sr > 0: want_re, want_im = X.sqrt(zr), X.const(0)
+            if si == 0 and sr < 0: want_re, want_im = X.const(0), X.sqrt(-zr)
+            chk.ob('R20.5', f'_sqrt_neg_python: Re = sqrt((|z|+Re z)/2), Im = sgn(Im z) sqrt((|z|-Re z)/2) ({lab})',
+                   dq.equal(re_part, want_re) and dq.equal(im_part, want_im), f're: {dq.describe(re_part, want_re)}; im: {dq.describe(im_part, want_im)}', mp.where(fpy),
+                   key=f'R20.5|principal|{sr}{si}', method='GF(p^2) PIT on a sign region')
+    # is_real=True (the only mode the package itself uses): z on the real axis
+    for sr in (-1, 0, 1):
+        lab = f'is_real, z {names[sr]}'
+        pins = {'z_im': 0}
+        if sr == 0: pins['z_re'] = 0
+        dq = X.Decider(seed=chk.seed + 17 + sr, k=3, positive=([sr * zr] if sr else []), pins=pins)
+        val = it3.call(mp, fpy, [zr], {'is_real': True})
+        want = X.sqrt(zr) if sr > 0 else (X.I * X.sqrt(-zr) if sr < 0 else X.const(0))
+        chk.ob('R20.5', f'_sqrt_neg_python(x, is_real=True) == principal root ({lab})', dq.equal(val, want), dq.describe(val, want), mp.where(fpy), key=f'R20.5|is_real|{sr}', method='GF(p^2) PIT on a sign region')
     # compiled main branch: t = sqrt((|z| + z_r)/2), result = (t, z_i/(2t)) for z_r >= 0 : same principal root
-    chk.floor('R20.1', 50); chk.floor('R20.4', 10); chk.floor('R20.5', 4)
+    chk.floor('R20.1', 50); chk.floor('R20.4', 10); chk.floor('R20.5', 21)
 
     from . import c20_annexg
     c20_annexg.run(chk, repo, mc)
